@@ -133,7 +133,7 @@ register(
     "site of the cascade, (R5c) every caller that resolves usages pairs the non-excluding and the excluding resolver "
     "under a test of the current definition's name against the usage name (memo lookups included). Cursor-column "
     "arithmetic and chain semantics are not decided.",
-    [r5.r5b_filter_everywhere, r5.r5c_selfref_pairing, r5.r5h_usage_before_definition_line, r5.r5g_usage_attribution, r4.r4b_unordered_pick, r2.r2h_handlers_pass_canonical_paths, r5.r5j_record_identity, r5.r5k_single_source, _r5d_flags, r5.r5f_walk_bounds, r4.r4g_zip_sides_agree] + CACHE,
+    [r5.r5b_filter_everywhere, r5.r5c_selfref_pairing, r5.r5h_usage_before_definition_line, r5.r5g_usage_attribution, r4.r4b_unordered_pick, r2.r2h_handlers_pass_canonical_paths, r5.r5j_record_identity, r5.r5k_single_source, _r5d_flags, r5.r5f_walk_bounds, r4.r4g_zip_sides_agree, r10.r10m_import_reads_are_transitive] + CACHE,
 )
 
 from . import r4
@@ -216,7 +216,7 @@ register(
     "returned in hash order; (R8b) the scope enum follows pytest's order, parse/as_str agree with it and a "
     "ScopeMismatch is built only under `fixture.scope > dependency.scope`. Soundness/completeness of the cycle "
     "search is not decided.",
-    [_r5a_c16, _r4a_c16, r8.r8b_scope_order, r8.r8d_decorator_keywords, r8.r8a_diagnostic_codes, r3.r3a_clean_before_append, r1e.r1e_worklist_unbounded, r8.r8h_dependency_edges_kept] + CACHE,
+    [_r5a_c16, _r4a_c16, r8.r8b_scope_order, r8.r8d_decorator_keywords, r8.r8a_diagnostic_codes, r3.r3a_clean_before_append, r1e.r1e_worklist_unbounded, r8.r8h_dependency_edges_kept, r4.r4f_no_prefix_adaptors] + CACHE,
 )
 
 register(
@@ -236,7 +236,7 @@ register(
     "like the server. Equality of counts with the server and byte-identical output are not decided.",
     [r8.r11b_exit_status, r8.r11d_json_output, r8.r11e_report_root_is_scan_root,
      lambda ctx: r4.r4a_unordered(ctx, only_fns=["get_unused_fixtures", "print_fixtures_tree", "compute_definition_usage_counts"], rule="R4a"),
-     r5.r5c_selfref_pairing, r4.r4d_sort_keys_are_projections, r4.r4e_local_memo_keys, r8.r11f_unused_report_ignores_plugin_flag, r4.r4f_no_prefix_adaptors, r5.r5g_usage_attribution, r4.r4h_no_pick_in_hash_order],
+     r5.r5c_selfref_pairing, r4.r4d_sort_keys_are_projections, r4.r4e_local_memo_keys, r8.r11f_unused_report_ignores_plugin_flag, r4.r4f_no_prefix_adaptors, r5.r5g_usage_attribution, r4.r4h_no_pick_in_hash_order, r4.r4b_unordered_pick],
 )
 
 register(
